@@ -140,6 +140,93 @@ Proof.
   - rewrite (IH Hr2 He). lia.
 Qed.
 
+(* ------------------------------------------------------------------ run-length encoding *)
+Lemma app_sep_inj x : forall y r1 r2,
+  nz x = true -> nz y = true -> x ++ 0%N :: r1 = y ++ 0%N :: r2 -> x = y /\ r1 = r2.
+Proof.
+  induction x as [|a x IH]; intros [|b y] r1 r2 Hx Hy H; cbn [app] in H.
+  - inversion H. split; reflexivity.
+  - inversion H; subst b. cbn in Hy. discriminate.
+  - inversion H; subst a. cbn in Hx. discriminate.
+  - inversion H; subst b. unfold nz in Hx, Hy. cbn [forallb] in Hx, Hy.
+    apply andb_true_iff in Hx as [_ Hx]. apply andb_true_iff in Hy as [_ Hy].
+    destruct (IH y r1 r2 Hx Hy H2) as [-> ->]. split; reflexivity.
+Qed.
+
+Lemma join_cons2 sep (x y : str) (r : list str) : join sep (x :: y :: r) = x ++ sep ++ join sep (y :: r).
+Proof. reflexivity. Qed.
+
+Lemma join0_inj p : forall q,
+  forallb nz p = true -> forallb nz q = true -> length p = length q ->
+  join [0%N] p = join [0%N] q -> p = q.
+Proof.
+  induction p as [|x p IH]; intros [|y q] Hp Hq Hl H; try discriminate; [reflexivity|].
+  cbn [forallb] in Hp, Hq. apply andb_true_iff in Hp as [Hx Hp]. apply andb_true_iff in Hq as [Hy Hq].
+  destruct p as [|x' p], q as [|y' q]; try discriminate.
+  - cbn [join] in H. subst y. reflexivity.
+  - rewrite !join_cons2 in H. cbn [app] in H.
+    destruct (app_sep_inj x y _ _ Hx Hy H) as [-> H2].
+    f_equal. apply IH; auto.
+Qed.
+
+Lemma ocell_eqb_eq a b :
+  ocell_nul_free a = true -> ocell_nul_free b = true -> ocell_eqb a b = true -> a = b.
+Proof.
+  destruct a as [|p|x|x|x|x], b as [|q|y|y|y|y]; cbn [ocell_eqb ocell_nul_free]; intros Ha Hb H;
+    try discriminate; try reflexivity; try (apply str_eqb_eq in H; subst; reflexivity).
+  - apply andb_true_iff in H as [H1 H2]. apply str_eqb_eq in H1. apply Nat.eqb_eq in H2.
+    f_equal. apply join0_inj; auto.
+  - apply eqb_prop in H. subst. reflexivity.
+Qed.
+
+Lemma rle_In r : forall c n, In (c, n) (rle r) -> In c r.
+Proof.
+  induction r as [|a r IH]; intros c n H; [destruct H|].
+  cbn [rle] in H. destruct (rle r) as [|[c' n'] rest].
+  - destruct H as [H|[]]. inversion H; subst. left; reflexivity.
+  - destruct (ocell_eqb a c').
+    + destruct H as [H|H].
+      * inversion H; subst. right. apply (IH c n'). left; reflexivity.
+      * right. apply (IH c n). right; exact H.
+    + destruct H as [H|H].
+      * inversion H; subst. left; reflexivity.
+      * right. apply (IH c n). exact H.
+Qed.
+
+(* Theorem 2 (strong form): expanding the runs gives the row back, for NUL-free string cells *)
+Theorem rle_expand r :
+  forallb ocell_nul_free r = true ->
+  flat_map (fun cn => repeat_list (fst cn) (snd cn)) (rle r) = r.
+Proof.
+  induction r as [|a r IH]; [reflexivity|]. cbn [forallb]. intro H.
+  apply andb_true_iff in H as [Ha Hr]. specialize (IH Hr).
+  pose proof (rle_In r) as HIn.
+  cbn [rle]. destruct (rle r) as [|[c' n] rest].
+  - cbn in IH. subst r. reflexivity.
+  - destruct (ocell_eqb a c') eqn:E.
+    + assert (a = c') as ->.
+      { apply ocell_eqb_eq; auto. rewrite forallb_forall in Hr. apply Hr, (HIn c' n). left; reflexivity. }
+      cbn [flat_map fst snd repeat_list app] in *. rewrite IH. reflexivity.
+    + cbn [flat_map fst snd repeat_list app] in *. rewrite IH. reflexivity.
+Qed.
+
+(* spec-level corollary *)
+Corollary rle_expand_spec pflt r :
+  forallb ocell_nul_free r = true ->
+  flat_map (fun cn => repeat_list (ocell_spec pflt (fst cn)) (snd cn)) (rle r) = map (ocell_spec pflt) r.
+Proof.
+  intro H. rewrite <- (rle_expand r H) at 2. rewrite map_flat_map.
+  induction (rle r) as [|cn l IH]; [reflexivity|]. cbn [flat_map]. rewrite map_repeat_list, IH. reflexivity.
+Qed.
+
+(* the side condition is needed: ocell_eqb identifies these two different cells *)
+Example rle_nul_counterexample :
+  let r := [OStr [[0%N]; []]; OStr [[]; [0%N]]] in
+  flat_map (fun cn => repeat_list (fst cn) (snd cn)) (rle r) <> r
+  /\ flat_map (fun cn => repeat_list (ocell_spec (fun _ => FValErr) (fst cn)) (snd cn)) (rle r)
+     <> map (ocell_spec (fun _ => FValErr)) r.
+Proof. split; vm_compute; discriminate. Qed.
+
 Section Ods.
   Variable pint : int_oracle.
   Variable pflt : float_oracle.
@@ -306,4 +393,149 @@ Section Ods.
       unfold grid_ok in Hok. rewrite forallb_forall in Hok. apply Hok, Hin.
   Qed.
 
+  (* ---------------- Theorem 3 *)
+  Theorem ods_rle_roundtrip : forall g c,
+    (1 <= c)%nat -> g <> [] -> grid_ok g = true -> rect c g = true ->
+    last_row_has_data g = true -> last_col_has_data c g = true ->
+    grid_nul_free g = true -> no_long_empty_runs g = true ->
+    ods_sheet pint pflt (ods_r_sheet_rle g) = Some (ogrid_spec pflt g).
+  Proof.
+    intros g c Hc Hne Hok Hrect Hlr Hlc Hnul Hruns.
+    apply (sheet_of_raw _ g c); auto.
+    change (ods_r_sheet_rle g)
+      with (E TABLE_TABLE (map (fun r => E TABLE_ROW ((fun r => map (fun cn => ods_r_cell (fst cn) (snd cn)) (rle r)) r)) g)).
+    rewrite findall_rows. apply raw_rows_gen.
+    - intros r _. cbv beta. induction (rle r) as [|x l IH]; [reflexivity|].
+      cbn [map forallb]. rewrite cell_tag, IH. reflexivity.
+    - intros r Hin. cbv beta.
+      unfold grid_ok in Hok. rewrite forallb_forall in Hok.
+      unfold grid_nul_free in Hnul. rewrite forallb_forall in Hnul.
+      unfold no_long_empty_runs in Hruns. rewrite forallb_forall in Hruns.
+      rewrite row_values_rle.
+      + rewrite rle_expand_spec by (apply Hnul, Hin). reflexivity.
+      + apply forallb_forall. intros [c' n] Hcn. cbn [fst].
+        specialize (Hok r Hin). rewrite forallb_forall in Hok. apply Hok, (rle_In r c' n Hcn).
+      + apply Hruns, Hin.
+  Qed.
+
 End Ods.
+
+(* ------------------------------------------------------------------ concrete oracles *)
+(* int(): decimal parser through Coq's DecimalString (enough for the strings str(n) produces) *)
+Fixpoint unS (x : str) : string :=
+  match x with [] => EmptyString | c :: r => String (ascii_of_N c) (unS r) end.
+Lemma unS_s x : unS (s x) = x.
+Proof. induction x as [|a x IH]; [reflexivity|]. cbn [s unS]. rewrite ascii_N_embedding, IH. reflexivity. Qed.
+
+Definition pint0 : int_oracle := fun x =>
+  match NilEmpty.uint_of_string (unS x) with
+  | Some d => Some (Z.of_N (N.of_uint d))
+  | None => None
+  end.
+Definition pflt0 : float_oracle := fun _ => FValErr.
+
+(* the Section hypothesis is satisfiable *)
+Lemma pint0_dec : forall n : N, pint0 (dec_N n) = Some (Z.of_N n).
+Proof. intro n. unfold pint0, dec_N. rewrite unS_s, NilEmpty.usu, DecimalN.Unsigned.of_to. reflexivity. Qed.
+
+Definition ods_plain_roundtrip0 := ods_plain_roundtrip pint0 pflt0 pint0_dec.
+Definition ods_rle_roundtrip0 := ods_rle_roundtrip pint0 pflt0 pint0_dec.
+
+(* ------------------------------------------------------------------ Refutation: the repeat cap *)
+(* A | 101 empty cells | B   — one row, 103 columns *)
+Definition gw : list (list ocell) := [ OStr [s "A"] :: repeat_list OEmpty 101 ++ [OStr [s "B"]] ].
+
+Theorem ods_repeat_cap_refuted : exists g c,
+  (1 <= c)%nat /\ g <> [] /\ grid_ok pflt0 g = true /\ rect c g = true /\
+  last_row_has_data pflt0 g = true /\ last_col_has_data pflt0 c g = true /\
+  grid_nul_free g = true /\
+  ods_sheet pint0 pflt0 (ods_r_sheet_plain g) = Some (ogrid_spec pflt0 g) /\
+  ods_sheet pint0 pflt0 (ods_r_sheet_rle g) <> Some (ogrid_spec pflt0 g).
+Proof.
+  exists gw, 103. repeat split; try (vm_compute; reflexivity).
+  - lia.
+  - discriminate.
+  - vm_compute. discriminate.
+Qed.
+
+(* what comes back: B moved from column 103 to column 3 *)
+Example ods_repeat_cap_witness :
+  ods_sheet pint0 pflt0 (ods_r_sheet_rle gw) = Some [[VStr (s "A"); VNone; VStr (s "B")]].
+Proof. vm_compute; reflexivity. Qed.
+
+(* the only hypothesis of ods_rle_roundtrip the witness violates *)
+Example ods_repeat_cap_witness_runs : no_long_empty_runs pflt0 gw = false.
+Proof. vm_compute; reflexivity. Qed.
+
+(* row variant: A / one empty row repeated 101 times / B  -> 3 rows instead of 103 *)
+Definition row_of (c : ocell) : xml := E TABLE_ROW [ods_r_cell c 1].
+Definition xw_rows : xml :=
+  E TABLE_TABLE [ row_of (OStr [s "A"]);
+                  Elem TABLE_ROW [(ATTR_REPEAT_ROWS, s "101")] [] [ods_r_cell OEmpty 1] [];
+                  row_of (OStr [s "B"]) ].
+Definition gw_rows : list (list ocell) := [OStr [s "A"]] :: repeat_list [OEmpty] 101 ++ [[OStr [s "B"]]].
+
+Example ods_row_repeat_cap_witness :
+  ods_sheet pint0 pflt0 xw_rows = Some [[VStr (s "A")]; [VNone]; [VStr (s "B")]]
+  /\ length (ogrid_spec pflt0 gw_rows) = 103%nat
+  /\ ods_sheet pint0 pflt0 (ods_r_sheet_plain gw_rows) = Some (ogrid_spec pflt0 gw_rows)
+  /\ ods_sheet pint0 pflt0 xw_rows <> Some (ogrid_spec pflt0 gw_rows).
+Proof. repeat split; try (vm_compute; reflexivity). vm_compute. discriminate. Qed.
+
+(* with 100 repeats both variants are expanded faithfully (the cap is exactly > 100) *)
+Definition gw100 : list (list ocell) := [ OStr [s "A"] :: repeat_list OEmpty 100 ++ [OStr [s "B"]] ].
+Example ods_repeat_100_ok :
+  no_long_empty_runs pflt0 gw100 = true
+  /\ ods_sheet pint0 pflt0 (ods_r_sheet_rle gw100) = Some (ogrid_spec pflt0 gw100).
+Proof. split; vm_compute; reflexivity. Qed.
+
+(* ------------------------------------------------------------------ non-vacuity of the hypotheses *)
+Definition g22 : list (list ocell) :=
+  [ [OStr [s "a"; s "b"]; ONum (s "1.5")];
+    [OEmpty;              OBool true] ].
+Definition pflt1 : float_oracle := fun x => if str_eqb x (s "1.5") then FFlt (s "1.5") else FValErr.
+Lemma pflt1_g22_ok : grid_ok pflt1 g22 = true.                 Proof. vm_compute; reflexivity. Qed.
+
+Example nonvac_width : (1 <= 2)%nat.                            Proof. lia. Qed.
+Example nonvac_nonempty : g22 <> [].                            Proof. discriminate. Qed.
+Example nonvac_grid_ok : grid_ok pflt0 g22 = true.              Proof. vm_compute; reflexivity. Qed.
+Example nonvac_rect : rect 2 g22 = true.                        Proof. vm_compute; reflexivity. Qed.
+Example nonvac_last_row : last_row_has_data pflt0 g22 = true.   Proof. vm_compute; reflexivity. Qed.
+Example nonvac_last_col : last_col_has_data pflt0 2 g22 = true. Proof. vm_compute; reflexivity. Qed.
+Example nonvac_nul_free : grid_nul_free g22 = true.             Proof. vm_compute; reflexivity. Qed.
+Example nonvac_runs : no_long_empty_runs pflt0 g22 = true.      Proof. vm_compute; reflexivity. Qed.
+Example nonvac_plain :
+  ods_sheet pint0 pflt0 (ods_r_sheet_plain g22)
+  = Some [[VStr (s "a" ++ NL ++ s "b"); VStr (s "1.5")]; [VNone; VBool true]].
+Proof. vm_compute; reflexivity. Qed.
+Example nonvac_rle :
+  ods_sheet pint0 pflt1 (ods_r_sheet_rle g22)
+  = Some [[VStr (s "a" ++ NL ++ s "b"); VFlt (s "1.5")]; [VNone; VBool true]].
+Proof. vm_compute; reflexivity. Qed.
+(* the hypotheses can fail too (they are real conditions) *)
+Example nonvac_grid_ok_false : grid_ok (fun _ => FOvf) g22 = false.          Proof. vm_compute; reflexivity. Qed.
+Example nonvac_rect_false : rect 2 [[OEmpty]; [OEmpty; OEmpty]] = false.     Proof. vm_compute; reflexivity. Qed.
+Example nonvac_last_row_false : last_row_has_data pflt0 [[OBool true]; [OEmpty]] = false. Proof. vm_compute; reflexivity. Qed.
+Example nonvac_last_col_false : last_col_has_data pflt0 2 [[OBool true; OEmpty]] = false. Proof. vm_compute; reflexivity. Qed.
+(* and the walker really trims in those cases *)
+Example trailing_row_trimmed :
+  ods_sheet pint0 pflt0 (ods_r_sheet_plain [[OBool true]; [OEmpty]]) = Some [[VBool true]].
+Proof. vm_compute; reflexivity. Qed.
+Example trailing_col_trimmed :
+  ods_sheet pint0 pflt0 (ods_r_sheet_plain [[OBool true; OEmpty]]) = Some [[VBool true]].
+Proof. vm_compute; reflexivity. Qed.
+(* inf in office:value escapes as OverflowError (why grid_ok is needed) *)
+Example ovf_escapes :
+  ods_sheet pint0 (fun _ => FOvf) (ods_r_sheet_plain [[ONum (s "inf")]]) = None.
+Proof. vm_compute; reflexivity. Qed.
+
+Print Assumptions ods_plain_roundtrip.
+Print Assumptions rle_expand.
+Print Assumptions rle_expand_spec.
+Print Assumptions ods_rle_roundtrip.
+Print Assumptions ods_plain_roundtrip0.
+Print Assumptions ods_rle_roundtrip0.
+Print Assumptions ods_repeat_cap_refuted.
+Print Assumptions ods_repeat_cap_witness.
+Print Assumptions ods_row_repeat_cap_witness.
+Print Assumptions pint0_dec.
